@@ -103,6 +103,19 @@ def run(res):
                 cases.append((head + ".dseg\n.byte %d\n" % r, exp, name, "ram/reserve"))
             if r >= 1:
                 cases.append((head + ".dseg\n.org %d\nv: .byte 1\n" % (rstart + r - 1), exp if rstart + r - 1 > 0 else exp, name, "ram/org"))
+        # the capacities are the device's: no other directive changes them (.csegsize is accepted and ignored; .includepath, .define, .equ
+        # and #pragma have nothing to do with them)
+        for j, other in enumerate((".csegsize 10", ".csegsize 12", ".csegsize 14", ".csegsize 16", ".csegsize 8", ".csegsize 11", "#pragma AVRPART MEMORY PROG_FLASH 65536",
+                                   ".define flash_size 99", ".equ ram_size = 1", ".pragma x", ".includepath \"inc\"")):
+            if (j + len(name)) % 3:
+                continue
+            for pre in (head + other + "\n", other + "\n" + head):
+                for delta, exp in ((0, "OK"), (1, "ERR")):
+                    cases.append((pre + ".org %d\nnop\n" % (flash + delta - 1), exp, name, "flash/org+code-after-" + other.split()[0]))
+                    if rsize + delta >= 0:
+                        cases.append((pre + ".dseg\n.byte %d\n" % (rsize + delta), exp, name, "ram/reserve-after-" + other.split()[0]))
+                    if eep + delta >= 1:
+                        cases.append((pre + ".eseg\n.byte %d\n" % (eep + delta), exp, name, "eeprom/reserve-after-" + other.split()[0]))
         cases.append((head + ".device %s\n" % name, "ERR", name, "second-device"))
         # the device may be selected anywhere: late in the file, inside a taken conditional, through a macro call
         for how, sel in (("late", "nop\n.device %s\n" % name), ("conditional", ".if 1\n.device %s\n.endif\n" % name),
